@@ -12,7 +12,7 @@ use pdf::primitive::Primitive;
 use rayon::prelude::*;
 use serde_json::{json, Value};
 
-pub const DANGLING: &[(&str, u64)] = &[("free-entry", 47), ("beyond-size", 5000), ("gap-in-table", 48), ("freed-by-update-generation-kept", 46), ("freed-by-update", 45)];
+pub const DANGLING: &[(&str, u64)] = &[("free-entry", 47), ("beyond-size", 5000), ("gap-in-table", 48), ("freed-by-update-generation-kept", 46), ("freed-by-update", 45), ("listed-by-the-section-but-equal-to-size", 55)];
 
 /// assemble the rich document so that object 47 is a free entry, 48 lies in a gap of the table, 49 defines the end
 fn assemble(objs: &[(u64, Val)], stream_xref: bool) -> Vec<u8> {
@@ -26,6 +26,10 @@ fn assemble(objs: &[(u64, Val)], stream_xref: bool) -> Vec<u8> {
     // incremented, 46 with the generation left as it was (`0000000000 00000 f`, as several producers write it)
     fb.add(45, 0, &Val::dict(vec![("Deleted", Val::Int(45))]));
     fb.add(46, 0, &Val::dict(vec![("Deleted", Val::Int(46))]));
+    // object 55 is written and listed by the cross-reference section, but /Size says 55: a number that is not below /Size
+    // is not an object of the file, whatever the section lists
+    fb.add(55, 0, &Val::dict(vec![("BeyondSize", Val::Int(55))]));
+    fb.size = 55;
     let extra = [("Root", Val::r(1)), ("Info", Val::r(37)), ("ID", Val::Array(vec![Val::str("0123456789abcdef"), Val::str("0123456789abcdef")]))];
     if stream_xref {
         fb.finish_stream(&extra, &XrefStreamOpts::new(50));
@@ -34,6 +38,7 @@ fn assemble(objs: &[(u64, Val)], stream_xref: bool) -> Vec<u8> {
     }
     fb.free(45, 1);
     fb.free(46, 0);
+    fb.size = 55;
     if stream_xref {
         fb.finish_stream(&extra, &XrefStreamOpts::new(51));
     } else {
@@ -424,7 +429,7 @@ pub fn run(_tier: Tier, _seed: u64, tally: &mut Tally) -> CheckMeta {
     CheckMeta {
         prop: "C18",
         level: "model_checking",
-        rule: format!("document level: {} entry sites of the rich document (optional entries of catalog, page tree, pages, resources and their dictionary values, fonts, descriptors, images, forms, trees, outlines, annotations, fields, info; array elements; and 12 required entries) x {{free entry, number beyond /Size, number in a gap of the table, object freed by an incremental update with the generation incremented / kept}} x {{classic table, xref stream}} x {{strict, tolerant}} x {{cached, uncached}}: the complete walk must equal the walk of the same document with the entry removed (required entries: no panic). Model level: each of {} fields of the C15 model table pointed at a dangling number inside a real file, typed load compared with the load of the dictionary without the field. Full product, distinct by (site, class, configuration).", n_sites, n_fields),
+        rule: format!("document level: {} entry sites of the rich document (optional entries of catalog, page tree, pages, resources and their dictionary values, fonts, descriptors, images, forms, trees, outlines, annotations, fields, info; array elements; and 12 required entries) x {{free entry, number beyond /Size, number in a gap of the table, object freed by an incremental update with the generation incremented / kept, number equal to /Size that the section nevertheless lists}} x {{classic table, xref stream}} x {{strict, tolerant}} x {{cached, uncached}}: the complete walk must equal the walk of the same document with the entry removed (required entries: no panic). Model level: each of {} fields of the C15 model table pointed at a dangling number inside a real file, typed load compared with the load of the dictionary without the field. Full product, distinct by (site, class, configuration).", n_sites, n_fields),
         assumptions: vec!["'treated as absent' is decided differentially against the document with the entry removed".into()],
         exhaustive: true,
         bounds: json!({"dangling_classes": DANGLING.len()}),
